@@ -61,7 +61,9 @@ ODD = ['"', "<", ">", "`", "{", "}", "\\", "|", "^", "[", "]", "~", "!", "$", "'
 CTRL = ["\x00", "\x01", "\t", "\n", "\x1f", "\x7f"]
 ALNUM = list("aAzZbBmM019")
 NONASCII = ["é", "ß", "Σ", "€", "😀", "ǅ", "ǆ", "İ", "\u212a", "ſ", "ı", "Ａ", "ᾈ", "À", "ẞ", "ﬀ", "ͅ", "σ", "ς"]
-TEXTS = ["..", ".", "...", "....", "%2F", "%2f", "%41", "%", "%%", "%zz", "pkg:", "a/b", "a=b&c=d", "x@1?y#z"]
+# what other escaping layers leave behind (XML / HTML entities, JSON, form encoding, double encoding): plain text to a PURL
+ENTITIES = ["&amp;", "&lt;", "&gt;", "&quot;", "&#38;", "&#x2F;", "&amp;amp;", "\\u0026", "\\/", "%26amp%3B", "%2526", "&amp", "amp;", "&#47;", "\\x2f", "%u002F"]
+TEXTS = ["..", ".", "...", "....", "%2F", "%2f", "%41", "%", "%%", "%zz", "pkg:", "a/b", "a=b&c=d", "x@1?y#z"] + ENTITIES
 ALPHABET = SEPS * 2 + ODD + CTRL + ALNUM * 3 + NONASCII
 
 
@@ -187,6 +189,9 @@ GENERIC_DEFAULTS = [("arch", "noarch"), ("arch", "any"), ("os", "linux"), ("type
                     # values with a tempting normal form of their own (URLs, architecture aliases, booleans)
                     ("repository_url", "HTTPS://Example.ORG:443/a/../b/?x=1#f"), ("repository_url", "https://example.org/"),
                     ("vcs_url", "git+ssh://git@GitHub.com/A/B.git@ABCDEF"), ("download_url", "http://[::1]:8080/%7Euser/a%20b"),
+                    ("repository_url", "https://deploy:p@ss@nexus.example.com/maven2"), ("download_url", "https://user@host.example/a.tgz"),
+                    ("download_url", "ftp://a:b@c@d@e/x?y@z#w@v"), ("repository_url", "user:pw@host/path"), ("vcs_url", "git+https://tok:en@github.com/a/b.git@main"),
+                    ("repository_url", "https://EXAMPLE.org:443"), ("repository_url", "http://example.org:80/"), ("download_url", "https://example.org/a/./b/../c//d"),
                     ("arch", "amd64"), ("arch", "x86_64"), ("arch", "AMD64"), ("os", "Windows"), ("prerelease", "true"), ("prerelease", "TRUE"),
                     ("file_name", "a/b\\c.TAR.GZ"), ("tag", "v1.0.0"), ("commit", "ABCDEF0123")]
 DEFAULT_VERSIONS = ["latest", "0", "0.0.0", "*", "HEAD", "main", "master", "v0", "unknown", "none", "null"]
